@@ -1011,6 +1011,52 @@ def c18_slow_load_task(mib):
         s.cleanup()
 
 
+def c18_port0_task(_):
+    """`server.lock.port: 0` (whatever an implementation makes of it): while a run of the repository is in
+    progress, `checkpoint update` is tried once per serialisation of the same configuration value - as written,
+    pretty-printed with reversed keys, with a trailing newline, padded. How it ends must be the same every time."""
+    import ctl as ctlmod
+    s = sc.Scratch("c18p0")
+    try:
+        ts = [{"path": "a"}, {"path": "b"}]
+        r = sc.Repo(s, "r", ts, commands={"a": {"build": "x"}, "b": {"build": "x"}})
+        r.cfg["server"]["lock"]["port"] = 0
+        r.write_cfg()
+        r.git("update-index", "--assume-unchanged", "Monorail.json")
+        val = r.cfg
+        compact = json.dumps(val, separators=(",", ":"))
+        sers = [("as written", open(r.path("Monorail.json")).read()), ("compact", compact), ("compact plus a trailing newline", compact + "\n"),
+                ("pretty, keys reversed", json.dumps(deep_order(val, "reversed"), indent=2)), ("padded to 70000 bytes", compact[:1] + " " * (70000 - len(compact)) + compact[1:])]
+        v = []
+        c = ctlmod.Controller(s)
+        try:
+            env = s.env(c.env())
+            holder = c.spawn("run", [common.MONORAIL, "run", "-c", "build", "-t", "a", "b", "--deps"], r.dir, env)
+            c.wait(lambda: len(c.waiting()) >= 2 or holder.done(), 15)
+            mine = list(c.waiting())
+            if len(mine) < 2:
+                raise common.EngineError("the run did not start its executables (exit %s %s)" % (holder.code, holder.err[:200]))
+            outcomes = []
+            for name, text in sers:
+                r.write("Monorail.json", text)
+                res = r.mr("checkpoint", "update")
+                outcomes.append((name, res.code, (res.err_json() or {}).get("type")))
+            if len({o[1:] for o in outcomes}) != 1:
+                v.append(("serialisation-changes-output", "lock port 0, a run in progress, `checkpoint update` under each serialisation of the same value: %s" % outcomes))
+            for ch in mine:
+                c.release(ch, 0)
+            c.wait(lambda: holder.done(), 20)
+        finally:
+            c.close()
+        return {"judged": len(sers), "v": [(sig, d, {"cli_c18_port0": 1}) for sig, d in v]}
+    except common.EngineError as e:
+        return {"engine_error": str(e)}
+    except Exception:
+        return {"engine_error": traceback.format_exc()[-1200:]}
+    finally:
+        s.cleanup()
+
+
 def c18_checkpoint_task(_):
     """A checkpoint is recorded, one target changes, and only then the configuration file is re-serialised
     (same value, new bytes, new modification time): analyze and run give what they gave before."""
@@ -1065,6 +1111,7 @@ def run_slice(prop, tier):
         res += common.pmap(c18_checkpoint_task, [0])
         res += common.pmap(c18_generate_pipe_task, [5000, 70_000, 300_000] if tier == "quick" else [5000, 40_000, 70_000, 140_000, 300_000, 1_000_000])
         res += common.pmap(c18_slow_load_task, [48] if tier == "quick" else [48, 128])
+        res += common.pmap(c18_port0_task, [0])
         res += common.pmap(c18_defaults_task, ["lock-port-only", "log-port-only", "lock-port-log-host", "lock-timeout-only", "empty-server"])
     elif prop == "C08":
         scripts = c08_scripts(tier)
@@ -1121,6 +1168,8 @@ def replay_case(prop, case):
         r = c17_task(case["cli_c17"])
     elif "cli_c18_slow" in case:
         r = c18_slow_load_task(case["cli_c18_slow"])
+    elif "cli_c18_port0" in case:
+        r = c18_port0_task(0)
     elif "cli_c18_pipe" in case:
         r = c18_generate_pipe_task(case["cli_c18_pipe"])
     elif "cli_c08_big" in case:
